@@ -749,3 +749,75 @@ Lemma bilinear_example :
   exists x, dec2 false [0; 4] [0; 4; 8] [[0#1; 64#1; 128#1]; [1024#1; 2048#1; 4096#1]]%Q 1 5 = Some [x]
             /\ (x == 700#1)%Q.
 Proof. eexists; split; [vm_compute; reflexivity|reflexivity]. Qed.
+
+
+(* ------------------------------------------------------------------ *)
+(* the bi-linear formula also at shared tie points *)
+
+Lemma fl_morph12 x x' y y' s : (x == x')%Q -> (y == y')%Q -> (fl x y s == fl x' y' s)%Q.
+Proof. intros E1 E2. unfold fl. rewrite E1, E2. reflexivity. Qed.
+
+Lemma fl_at_0 x y : (fl x y 0 == x)%Q.
+Proof. unfold fl. ring. Qed.
+
+Lemma fl_at_1 x y : (fl x y 1 == y)%Q.
+Proof. unfold fl. ring. Qed.
+
+Lemma fl_morph3 x y s s' : (s == s')%Q -> (fl x y s == fl x y s')%Q.
+Proof. intro E. unfold fl. rewrite E. reflexivity. Qed.
+
+(* for an index inside subarea m (tie points included) there is a subarea
+   that assigns it, and linear interpolation along any lane of tie points
+   gives, from that subarea, the value of the formula for subarea m *)
+Lemma locate1 tpi m a b i :
+  incr tpi -> nth_error tpi m = Some a -> nth_error tpi (S m) = Some b -> 2 <= b - a ->
+  a <= i <= b ->
+  exists A, In A (subareas tpi) /\ cov A i = true /\
+    forall lane : nat -> Q,
+      (fl (lane (a_k A)) (lane (S (a_k A))) (qn (i - a_ia A) / qn (a_ib A - a_ia A)) ==
+       fl (lane m) (lane (S m)) (qn (i - a) / qn (b - a)))%Q.
+Proof.
+  intros HI Ha Hb Hg Hi.
+  pose proof (subareas_spec tpi m a b Ha Hb Hg) as HM.
+  destruct (Nat.eq_dec i a) as [Eia|Nia].
+  2: { eexists; split; [exact HM|]. split.
+       - apply cov_mk. destruct (first_at true tpi m); lia.
+       - intro lane. cbn [a_k a_ia a_ib]. reflexivity. }
+  subst i. destruct (first_at true tpi m) eqn:EF.
+  - eexists; split; [exact HM|]. split.
+    + apply cov_mk. try rewrite EF. cbn. lia.
+    + intro lane. cbn [a_k a_ia a_ib]. reflexivity.
+  - destruct (first_at_false_prev _ _ _ EF eq_refl) as [m' [Em Hg']]. subst m.
+    rewrite (nth_error_nth _ _ _ Ha) in Hg'.
+    pose proof (nth_error_prev _ _ _ Ha) as Ha'.
+    pose proof (subareas_spec tpi m' (nth m' tpi 0) a Ha' Ha Hg') as HM'.
+    eexists; split; [exact HM'|]. split.
+    + apply cov_mk. destruct (first_at true tpi m'); lia.
+    + intro lane. cbn [a_k a_ia a_ib].
+      transitivity (lane (S m')).
+      * etransitivity; [apply fl_morph3; apply s_one; lia|apply fl_at_1].
+      * symmetry. rewrite Nat.sub_diag. etransitivity; [apply fl_morph3; apply s_zero|apply fl_at_0].
+Qed.
+
+Lemma bilinear_full tpi2 tpi1 T m2 a2 b2 i2 m1 a1 b1 i1 :
+  incr tpi2 -> incr tpi1 ->
+  nth_error tpi2 m2 = Some a2 -> nth_error tpi2 (S m2) = Some b2 -> 2 <= b2 - a2 -> a2 <= i2 <= b2 ->
+  nth_error tpi1 m1 = Some a1 -> nth_error tpi1 (S m1) = Some b1 -> 2 <= b1 - a1 -> a1 <= i1 <= b1 ->
+  let s2 := (qn (i2 - a2) / qn (b2 - a2))%Q in
+  let s1 := (qn (i1 - a1) / qn (b1 - a1))%Q in
+  cell_eq (dec2 false tpi2 tpi1 T i2 i1)
+          (fl (fl (tpv2 T m2 m1) (tpv2 T (S m2) m1) s2)
+              (fl (tpv2 T m2 (S m1)) (tpv2 T (S m2) (S m1)) s2) s1).
+Proof.
+  intros HI2 HI1 Ha2 Hb2 Hg2 Hi2 Ha1 Hb1 Hg1 Hi1 s2 s1.
+  destruct (locate1 tpi2 m2 a2 b2 i2 HI2 Ha2 Hb2 Hg2 Hi2) as [A2 [HA2 [HC2 L2]]].
+  destruct (locate1 tpi1 m1 a1 b1 i1 HI1 Ha1 Hb1 Hg1 Hi1) as [A1 [HA1 [HC1 L1]]].
+  rewrite (bilinear_spec tpi2 tpi1 T A2 A1 i2 i1 HI2 HI1 HA2 HA1 HC2 HC1). cbv zeta.
+  eexists; split; [reflexivity|].
+  set (P := fun k1 : nat => fl (tpv2 T m2 k1) (tpv2 T (S m2) k1) s2).
+  transitivity (fl (P (a_k A1)) (P (S (a_k A1))) (qn (i1 - a_ia A1) / qn (a_ib A1 - a_ia A1))).
+  - apply fl_morph12.
+    + exact (L2 (fun k => tpv2 T k (a_k A1))).
+    + exact (L2 (fun k => tpv2 T k (S (a_k A1)))).
+  - exact (L1 P).
+Qed.
